@@ -511,7 +511,8 @@ def rand_stream(rng):
 
 E2E_NAMES = ["mm_0", "mm_1", "mm-17", "addmm_2_MatMul", "addmm_31_MatMul", "conv2d", "softmax_3", "softmax", "final_9",
              "layer_1-2_x", "layer_7-88_x", "gelu"]
-E2E_ARGVS = [[], ["--keep_names"], ["--flow"], ["--disable_tb"], ["--keep_prep"], ["--drop_globals"], ["-O", "tid"]]
+E2E_ARGVS = [[], ["--keep_names"], ["--flow"], ["--disable_tb"], ["--keep_prep"], ["--drop_globals"], ["-O", "tid"],
+             ["-F", "X"], ["-F", "XC"], ["-k"], ["-C", "power_ts4"]]
 
 
 def rand_e2e(rng, i):
